@@ -18,13 +18,16 @@ type Prelude struct {
 	seqElem   map[string]string // seq sort -> elem sort
 	structs   map[string]*types.Struct
 	structGo  map[string]types.Type
-	boxes     map[string]int // box sort -> tag
-	small     bool           // small-scope mode: sequences are bounded datatypes (counterexample search only)
+	boxes     map[string]int              // box sort -> tag
+	boxTypes  map[string]types.Type       // box sort -> Go type (for the implements relation)
+	implIface map[string]*types.Interface // impl_<I> predicate -> interface
+	implOrder []string
+	small     bool // small-scope mode: sequences are bounded datatypes (counterexample search only)
 	tagNames  []string
 }
 
 func NewPrelude() *Prelude {
-	return &Prelude{done: map[string]bool{}, seqElem: map[string]string{}, structs: map[string]*types.Struct{}, structGo: map[string]types.Type{}, boxes: map[string]int{}}
+	return &Prelude{done: map[string]bool{}, seqElem: map[string]string{}, structs: map[string]*types.Struct{}, structGo: map[string]types.Type{}, boxes: map[string]int{}, boxTypes: map[string]types.Type{}, implIface: map[string]*types.Interface{}}
 }
 
 var mangler = strings.NewReplacer(".", "_", "/", "_", "*", "P", "[", "L", "]", "J", " ", "_", "(", "_", ")", "_", ",", "_", "$", "D", "{", "_", "}", "_", "-", "_", ";", "_", "\"", "_", ":", "_", "#", "H", "@", "_", "<", "_", ">", "_", "=", "_", "|", "_")
@@ -254,6 +257,12 @@ func (p *Prelude) Box(T types.Type) (name string) {
 	p.tagNames = append(p.tagNames, "tag_"+key)
 	w("(assert (forall ((x %s)) (! (and (= (unbox_%s (box_%s x)) x) (= (tagof (box_%s x)) tag_%s) (not (= (box_%s x) 0))) :pattern ((box_%s x)))))", s, key, key, key, key, key, key)
 	w("(assert (forall ((i Int)) (! (=> (= (tagof i) tag_%s) (= (box_%s (unbox_%s i)) i)) :pattern ((unbox_%s i)))))", key, key, key, key)
+	p.boxTypes[key] = T
+	for _, in := range p.implOrder {
+		if !types.IsInterface(T) && types.Implements(T, p.implIface[in]) {
+			w("(assert (%s tag_%s))", in, key)
+		}
+	}
 	switch T.Underlying().(type) {
 	case *types.Pointer, *types.Map:
 		// the reference carried by an interface value that boxes a pointer
@@ -266,6 +275,28 @@ func (p *Prelude) needTagof() {
 	if !p.done["tagof"] {
 		p.done["tagof"] = true
 		p.funDecls = append(p.funDecls, "(declare-fun tagof (Int) Int)", "(assert (= (tagof 0) 0))", "(declare-fun ptrin (Int) Int)", "(assert (= (ptrin 0) 0))")
+	}
+}
+
+// DeclareImpl declares the predicate "the dynamic type with this tag implements I" and states it for every concrete
+// type boxed so far (and, in Box, for every one boxed later) that implements I according to go/types.
+func (p *Prelude) DeclareImpl(name string, I *types.Interface) {
+	if _, ok := p.implIface[name]; ok {
+		return
+	}
+	p.needTagof()
+	p.Declare(name, fmt.Sprintf("(declare-fun %s (Int) Bool)", name))
+	p.implIface[name] = I
+	p.implOrder = append(p.implOrder, name)
+	keys := make([]string, 0, len(p.boxTypes))
+	for k := range p.boxTypes {
+		keys = append(keys, k)
+	}
+	sort.Strings(keys)
+	for _, k := range keys {
+		if T := p.boxTypes[k]; !types.IsInterface(T) && types.Implements(T, I) {
+			p.funDecls = append(p.funDecls, fmt.Sprintf("(assert (%s tag_%s))", name, k))
+		}
 	}
 }
 
